@@ -866,14 +866,20 @@ def verify_spec(spec):
         formal = formal + ["*" + fi.node.args.vararg.arg]
     if fi.node.args.kwarg is not None:
         formal = formal + ["**" + fi.node.args.kwarg.arg]
+    rename = {}
     if [n for n, _ in spec.params] != formal:
-        return fi, [], [StructFailure(fi.ident, "parameters %s differ from the contract's %s"
-                                      % (formal, [n for n, _ in spec.params]))]
+        private = fi.name.startswith("__") and not fi.name.endswith("__")
+        if private and len(formal) == len(spec.params) and all(a.startswith("*") == b.startswith("*") for (a, _), b in zip(spec.params, formal)):
+            # a name-mangled helper's parameter names are not part of any interface: bind the contract's names positionally
+            rename = {a: b for (a, _), b in zip(spec.params, formal) if a != b}
+        else:
+            return fi, [], [StructFailure(fi.ident, "parameters %s differ from the contract's %s"
+                                          % (formal, [n for n, _ in spec.params]))]
     args = {n: world.make_arg(n, k) for n, k in spec.params}
     ctx = Ctx(spec, S0, args)
     ex.fnctx = ctx
     pre = clauses(spec.requires(ctx))
-    p0 = Path({n.lstrip("*"): v for n, v in args.items()}, S0, list(S0.axioms) + world.arg_facts(args, spec) + [c.f for c in pre], [],
+    p0 = Path({rename.get(n, n).lstrip("*"): v for n, v in args.items()}, S0, list(S0.axioms) + world.arg_facts(args, spec) + [c.f for c in pre], [],
               world.empty_out(spec) if spec.generator else None)
     hints = getattr(spec, "hints", None)
     if hints:
